@@ -317,6 +317,15 @@ func genC07(r *plan.Rng, tier string) *plan.Plan {
 	if r.Fork(11).Chance(1, 5) {
 		cs.Wrap = true
 	}
+	// the same instants with contexts that carry a cause, or a custom Context
+	if rk := r.Fork(12); rk.Chance(1, 6) {
+		switch cs.Kind {
+		case "cancel":
+			cs.Kind = []string{"cancelCause", "merged"}[rk.Intn(2)]
+		case "timeout":
+			cs.Kind = "timeoutCause"
+		}
+	}
 	p.Ctxs = []plan.CtxSpec{cs}
 	note(p, "ctx", cs.Kind)
 
